@@ -24,7 +24,7 @@ META = {
     "stubs": ["CphotAng helpers -> deterministic uninterpreted functions (see C08)", "atm.us_std_atm_altitude_from_pressure -> uninterpreted function alt_of_p", "astropy.io.fits.open -> recorder of the file name returning a small symbolic map"],
     "assumptions": ["REAL mode", "altitude steps zs increase along the track (valid_arrays)", "a map cell 'contains' a location when the chosen grid node lies within one grid spacing of it in both coordinates (lenient reference: any of the bracketing nodes is accepted)"],
 }
-LEDGER = {"quick": 180, "thorough": 225}
+LEDGER = {"quick": 800, "thorough": 800}
 
 
 def cloud_run(K, regime):
@@ -214,6 +214,14 @@ def job_map(nlat, nlon, tier):
     return harness.run_job(f"pressure-map lookup ({nlat}x{nlon})", map_run(nlat, nlon), timeout_ms=60000 if tier == "quick" else 600000, second=(tier == "thorough"))
 
 
+def job_eas_align(tier):
+    """the event's own latitude / longitude reach the cloud model: the real EAS.__call__ hands the shower kernel
+    exactly the in-range events, aligned across beta, altitude, energy, LATITUDE and LONGITUDE (C08's harness, N=3)"""
+    from props import c08 as P8
+
+    return P8.job_eas(3, tier)
+
+
 def job_months(tier):
     return harness.run_job("pressure-map file for months 1..12, twice through one module", months_run(), timeout_ms=10000, twin=False)
 
@@ -224,6 +232,7 @@ def jobs(tier, seed):
     out += [(f"m{k}", "job_models", {"kind": k, "tier": tier}) for k in ("none", "nocloud", "mono")]
     out.append(("map", "job_map", {"nlat": 3 if tier == "quick" else 4, "nlon": 4 if tier == "quick" else 5, "tier": tier}))
     out.append(("months", "job_months", {"tier": tier}))
+    out.append(("eas_align", "job_eas_align", {"tier": tier}))
     return out
 
 
@@ -232,6 +241,10 @@ def replay(v):
 
     job, ob = v.get("job", ""), v["obligation"]
     m = {k: x for k, x in (v.get("model") or {}).items() if x is not None}
+    if job.startswith("EAS.__call__"):
+        from props import c08 as P8
+
+        return P8.replay(v)
     if job.startswith("pressure-map lookup"):
         from nuspacesim.simulation.atmosphere.clouds import altitude_from_pressure_map_v0
         from nuspacesim.simulation.eas_optical import atmospheric_models as atm
